@@ -98,6 +98,7 @@ def n3(ctx, fx, H):
     import c06
     from common import next_loops, bool_switches
     nchk = 0
+    sel_loops = c06.selector_loops(fx, H)
     for fn in H.sel_fns:
         fv = vals(fn)
         fail_edges = []
@@ -108,17 +109,12 @@ def n3(ctx, fx, H):
         for (bb, tt, ft, c) in bool_switches(fn):
             if c.kind == "call" and c.d["term"].get("name") == "contains_key":
                 fail_edges.append((bb, ft))
-        for lp in next_loops(fn):
-            it = lp.iter_ty
-            if "serde_json::map::IntoIter" in it or "serde_json::map::Iter" in it:
-                sel_path = [1]
-            elif "std::iter::Zip" in it:
-                sel_path = [0]
-            else:
+        for (fn_, lp, is_sel) in sel_loops:
+            if fn_ is not fn:
                 continue
             for assume in ("null", "false"):
                 nchk += 1
-                rem = c06.selector_prune(fx, fn, (lambda x, lp=lp, sel_path=sel_path: common.item_path(x, lp.node) == sel_path), assume)
+                rem = c06.selector_prune(fx, fn, is_sel, assume)
                 bad = None
                 for d in lp.body_entries:
                     r_all = cfg.reachable(fn, [d], removed_blocks=[lp.bb], removed_edges=rem)
